@@ -215,4 +215,12 @@ theorem C15_last_command_handled (c : Cons α) (r : Ring α) (hist : List α) (x
 regenerated from the source on every run, rounded up to a power of two as tokio does) -/
 theorem C15_capacity_as_stated : statedCapacity ≤ effectiveCapacity := by decide
 
+/-- the consumer these theorems are about (`Cons.poll`: handle on Ok, go on after Lagged, leave on Closed; a cursor that
+exists from the scheduling call on) is the command task of the current tree: the three arms of
+`match command_rx.recv().await` in `schedule_net_service` and the place where the receiver is subscribed are regenerated
+from runtime/mod.rs on every run -/
+theorem C15_command_task_as_modelled :
+    Consts.cmdTaskOkDispatches = true ∧ Consts.cmdTaskLaggedContinues = true ∧ Consts.cmdTaskClosedLeaves = true ∧
+    Consts.cmdRxSubscribedAtScheduling = true := by decide
+
 end Glonax.Thm.C15
